@@ -27,6 +27,19 @@ def strl(xs):
     return "[" + "; ".join('"%s"' % x for x in xs) + "]" if xs else "(@nil string)"
 
 
+def user_range_for(name):
+    """a user-declared range that is physically meaningful for the parameter (an ellipticity range of [1, 3] renders NaN images)"""
+    if name.startswith("ellip"):
+        return [0.1, 0.5]
+    if name.startswith("f_"):
+        return [0.2, 0.6]
+    if name.startswith("theta"):
+        return [0.5, 2.5]
+    if name == "n" or name.startswith("n_"):
+        return [1.0, 4.0]
+    return [1.0, 3.0]
+
+
 def run(ck):
     rng = random.Random(ck.seed * 7919 + 15)
     quick = ck.tier == "quick"
@@ -51,7 +64,7 @@ def run(ck):
         cases.append({"kind": "poly" if i % 4 != 3 else "bspline", "fitter": fitter, "types": types, "n_bands": nb, "band_names": bn, "linked": linked, "const": const,
                       "order": rng.randint(0, 4), "wavelengths": sorted(rng.sample([0.4, 0.6, 0.9, 1.2, 1.6, 2.2, 3.6, 4.5], nb)), "sky": rng.choice(["none", "flat"]),
                       "coef_scale": rng.choice([1.0, 50.0, -50.0]), "seed": rng.randint(0, 10**6),
-                      "user_range": ({linked[0]: [1.0, 3.0]} if i % 5 == 1 and not any(s in linked[0] for s in ("xc", "yc")) else None)})
+                      "user_range": ({linked[0]: user_range_for(linked[0])} if i % 5 == 1 and not any(s in linked[0] for s in ("xc", "yc")) else None)})
     # user ranges on parameters that also have a built-in default range (n, ellip, theta): the user's must win
     for i, pname in enumerate(["n", "ellip", "theta"] if not quick else [["n", "ellip", "theta"][ck.seed % 3]]):
         urange = {"n": [1.0, 4.0], "ellip": [0.1, 0.5], "theta": [0.5, 2.5]}[pname]
